@@ -13,21 +13,68 @@ from .common import EXIT_HARNESS, EXIT_OK, EXIT_VIOLATION
 REGISTRY = {
     "C01": ("A", "vf.harness.C01"),
     "C04": ("A", "vf.harness.C04"),
-    "C07": ("A", "vf.harness.C07"),
+    "C07": ("A", "vf.harness.C07", "vf.engine_b.c07"),
     "C08": ("A", "vf.harness.C08"),
     "C09": ("A", "vf.harness.C09"),
     "C12": ("A", "vf.harness.C12"),
+    "C19": ("A", "vf.harness.C19", "vf.engine_b.c19"),
+    "C20": ("B", "vf.engine_b.c20"),
 }
 
 LEVEL = {}
 
 
-def run_A(prop, modname, tier, seed):
+def run_kernel(prop, kmodname, tier):
+    """Engine B kernel attached to an Engine A property: (code, coverage extras, violations)"""
+    import json as _json
+
+    kmod = importlib.import_module(kmodname)
+    code, cov, lines, fails, incon = kmod.run(tier)
+    for ln in lines:
+        print(ln)
+    nviol = 0
+    seen = set()
+    for n, mode, (desc, req) in fails:
+        if (n, mode, desc) in seen:
+            continue
+        seen.add((n, mode, desc))
+        if req is None:
+            print("HARNESS-ERROR property=%s kernel n=%s mode=%s: %s" % (prop, n, mode, desc))
+            code = max(code, EXIT_HARNESS)
+            continue
+        broken, why = kmod.replay_fail(n, mode, req)
+        if broken:
+            nviol += 1
+            os.makedirs(common.REPLAY_DIR, exist_ok=True)
+            path = os.path.join(common.REPLAY_DIR, "%s-kernel-n%s-m%s.json" % (prop, n, mode))
+            with open(path, "w") as f:
+                _json.dump({"property": prop, "n": n, "mode": mode, "request": req, "obligation": desc,
+                            "real": why}, f)
+            if nviol <= 5:
+                print("VIOLATION property=%s replay=%s" % (prop, path))
+                print("  n=%s %s=%s: %s (%s)" % (n, {1: "batchsize", 2: "num_batches"}.get(mode, "-"), req, desc, why))
+            code = max(code, EXIT_VIOLATION)
+        else:
+            print("HARNESS-ERROR property=%s kernel witness n=%s mode=%s req=%s (%s) does not reproduce on the "
+                  "real code" % (prop, n, mode, req, desc))
+            code = max(code, EXIT_HARNESS)
+    for n, mode, what in incon[:5]:
+        print("INCONCLUSIVE property=%s kernel n=%s mode=%s %s" % (prop, n, mode, what))
+    print("  kernel: %s" % {k: v for k, v in cov.items() if k != "kernel_functions_encoded"})
+    return code, cov, nviol
+
+
+def run_A(prop, modname, tier, seed, kmodname=None):
     from . import engine_a
 
     t0 = time.time()
     mod = importlib.import_module(modname)
     code, records, violations = engine_a.run_property(prop, modname, tier, seed)
+    kcov = {}
+    if kmodname:
+        kcode, kcov, kviol = run_kernel(prop, kmodname, tier)
+        code = max(code, kcode)
+        violations += kviol
     wall = time.time() - t0
     paths = sum(r["paths"] for r in records.values())
     reached = sum(r.get("reached", 0) for r in records.values())
@@ -58,6 +105,11 @@ def run_A(prop, modname, tier, seed):
                        "arguments are solver variables; 'confirmed' = every feasible path within the stated "
                        "bounds satisfied the post-condition; nothing outside the bounds is claimed",
     }
+    coverage.update(kcov)
+    if kcov:
+        coverage["evaluations"] += kcov.get("kernel_paths", 0)
+        coverage["distinct_nontrivial"] += kcov.get("kernel_paths", 0)
+        coverage["exhaustive"] = coverage["exhaustive"] and not kcov.get("kernel_inconclusive")
     level = getattr(mod, "LEVEL", "model_checking")
     common.write_evidence(prop, tier, seed, level, coverage, getattr(mod, "ASSUMPTIONS", []), wall, violations)
     return code
@@ -79,10 +131,10 @@ def main(argv=None):
     if a.prop not in REGISTRY:
         print("unknown or unclaimed property", a.prop)
         return EXIT_HARNESS
-    kind, modname = REGISTRY[a.prop]
+    kind, modname = REGISTRY[a.prop][:2]
     print("== %s tier=%s seed=%s (%s)" % (a.prop, a.tier, seed, modname))
     if kind == "A":
-        code = run_A(a.prop, modname, a.tier, seed)
+        code = run_A(a.prop, modname, a.tier, seed, *REGISTRY[a.prop][2:])
     else:
         mod = importlib.import_module(modname)
         code = mod.main(a.prop, a.tier, seed)
